@@ -3,6 +3,7 @@ package main
 import (
 	"fmt"
 	"go/types"
+	"sort"
 	"strings"
 
 	"golang.org/x/tools/go/ssa"
@@ -74,6 +75,7 @@ func init() {
 		ruleContainerReset(inPkgs("geojson."), 2),
 		ruleMakeThenAppend(inPkgs("geojson."), 0),
 		ruleNoWriteOpt("geojson encoders", geojsonEncoders, 6, 4, true),
+		ruleNoGlobalBehindParams("geojson decoders", geojsonDecoders, 4),
 		ruleShapeFaults(shapeConfig{label: "geojson constructors", keep: inPkgs("geojson."), floor: 2}),
 	)
 
@@ -101,6 +103,8 @@ func init() {
 		"Structural necessary conditions of 'decoders are total and allocation-bounded': no guard arithmetic on a decoded count can wrap in a narrow unsigned type. (Further clauses are added by the shape interpreter.)",
 		ruleNarrowArith(inDecoders, 2),
 		ruleQuadraticAlloc(inDecoders, 5),
+		ruleScanCoercion, // x[0] of a decoded multi geometry only under len(x) == 1: an empty one must not be indexed
+		ruleWKTCapacityHint,
 		func(c *Ctx) {
 			nb, ns, lim := 24, 16, Limits{MaxStates: 2500, MaxSteps: 20000, MaxVisits: 3, MaxDepth: 40}
 			if c.Thorough() {
@@ -244,7 +248,8 @@ func init() {
 		ruleCompactionIndex(notGenerated, 6),
 		ruleMakeThenAppend(notGenerated, 8),
 		ruleLastIterationWins(notGenerated, 100),
-		ruleDispatchDelegation([]string{"maptile/tilecover", "clip", "project", "clip/smartclip"}, 20),
+		ruleDispatchDelegation([]string{"maptile/tilecover", "clip", "project", "clip/smartclip", "simplify:simplify"}, 25),
+		ruleAreaFlag, // the generic simplify entry treats a ring as a ring (area flag), as the typed methods do
 	)
 
 	// table rules whose clauses the A-comp rules of the same property decide semantically
@@ -625,6 +630,19 @@ var wkbUnitDecoders = []string{
 }
 
 // geojsonEncoders: Marshal methods read the value they encode.
+// geojsonDecoders: every Unmarshal* method of package geojson.
+func geojsonDecoders(c *Ctx) []effectEntry {
+	var out []effectEntry
+	for _, fn := range c.P.FuncsIn(orbPath + "/geojson") {
+		if fn.Parent() != nil || fn.Signature.Recv() == nil || !strings.HasPrefix(fn.Name(), "Unmarshal") {
+			continue
+		}
+		out = append(out, effectEntry{key: ShortKey(FuncKey(fn)), roles: map[int]paramRole{}})
+	}
+	sort.Slice(out, func(i, j int) bool { return out[i].key < out[j].key })
+	return out
+}
+
 func geojsonEncoders(c *Ctx) []effectEntry {
 	var out []effectEntry
 	for _, fn := range c.P.FuncsIn(orbPath + "/geojson") {
